@@ -103,3 +103,7 @@ package rsyncd
 //@ func (*rsyncd.Server).handleConnSender
 //@   at[C14] progress.NewPrinter: set ghost.smark = select(ghost.rpos, data(c.Reader))
 //@   at[C14] (*sender.Transfer).Do: assert [filter-list-always-read] arg0.Conn == c && select(ghost.rpos, data(c.Reader)) == filterListEnd(data(c.Reader), ghost.smark)
+
+// ---------------------------------------------------------------- C09: a deleting receiver knows the user's rules
+//@ func (*rsyncd.Server).handleConnReceiver
+//@   at[C09] (*receiver.Transfer).ReceiveFileList: assert [deleting-receiver-has-the-received-rules] opts.delete_mode != 0 ==> arg0.Filter != nil && typeis(arg0.Filter, "*sender.filterRuleList")
